@@ -573,7 +573,7 @@ func init() {
 		Level: "fault_enumeration",
 		Rule: "census of every temp-file creation, run-file write, sync, seek and read of multi-chunk workloads (2..5 chunks, both writer modes), then one run per fault point with exactly that operation failing (writes/reads through the verif run-file wrapper, creation by removing the sorter's directory, sync/seek by closing the run file behind the sorter, and again as a transient failure of that one fsync/lseek with the file left intact (descriptor swapped for a pipe end during the call); " +
 			"fsync/lseek also injected by strace into a hook-free child); in concurrent mode faults are combined with holds ordering the failing writer's return before/after the caller's next hand-off and Finalise. Oracle: no error reported by any Push/Finalise/Pull and (pulled != sorted input, or the fault is known to have taken effect) => violation. " +
-			"Two-cycle runs: the n-th write fails in the first cycle and, after Clear, again in the second, where it must be reported again. Failing reads also on sorters with AutoClean (drained on to io.EOF after the error: directory gone). CleanUp called while a background writer is parked at recv/register/encode/sync: nil, directory gone then and after the writers have finished. Residue: random C11 histories with AutoClean/AutoClear, checking the temporary directory after drain and after CleanUp. Non-trivial = the chosen operation was actually reached; distinct = (workload, mode, fault, hold) or history word",
+			"Two-cycle runs: the n-th write fails in the first cycle and, after Clear, again in the second, where it must be reported again. Failing reads also on sorters with AutoClean (drained on to io.EOF after the error: directory gone). CleanUp called while a background writer is parked at recv/register/encode/sync: nil, directory gone then and after the writers have finished. Residue: random C11 histories with AutoClean/AutoClear (half of those with AutoClean set their flags only at the start of, or half-way through the pulls of, a later cycle, the earlier cycles having run without), checking the temporary directory after drain and after CleanUp. Non-trivial = the chosen operation was actually reached; distinct = (workload, mode, fault, hold) or history word",
 		Batches: func(t string) int {
 			if t == "thorough" {
 				return 16
@@ -716,6 +716,8 @@ func c13One(r *obs.Run, p c13Plan, vals []int) {
 func c13Residue(r *obs.Run) {
 	h := c11GenHist(r.Rng, 4)
 	h.AutoClean = r.Rng.Intn(3) == 0
+	h.LateFlags = false
+	c11LateFlags(r.Rng, &h)
 	scratch := c11Scratch(r)
 	defer os.RemoveAll(scratch)
 	r.Crumb(fmt.Sprintf("residue %+v", h))
@@ -729,6 +731,7 @@ func c13Residue(r *obs.Run) {
 		res = c11RunHist(r, h, scratch, true)
 	}()
 	r.Count("residue_histories", 1)
+	r.Count("residue_histories_setting_the_flags_on_a_sorter_already_in_use", int64(res.lateFlagSets))
 	drained := false
 	for _, c := range h.Cycles {
 		if c.Drain == "all" || c.Drain == "all+extra" {
